@@ -390,9 +390,14 @@ def stepLine (st : St) (line : String) : St × String :=
          if let some tag := faulted then
            ({ st with cursors := setSlot st.cursors i { s with dead := true } }, out3 s!"err io {tag}" "L=* fp=*" "-")
          else
-         let fp := match rc'.inner with
-           | some l => ",".intercalate (l.map (fun (p : Nat × BlockCursor) => toString p.1))
+         let pos (o : Option Nat) : String := match o with | some x => toString x | none => "-"
+         let idx := match rc'.inner with
+           | some l => ",".intercalate (l.map (fun (p : Nat × BlockCursor) => s!"{p.1}@{pos p.2.off}"))
            | none => "none"
+         let d := match rc'.cur with
+           | some b => pos b.off
+           | none => "none"
+         let fp := s!"{idx};d={d}"
          ({ st with cursors := setSlot st.cursors i { s with rc := rc', pos := pos' } },
           out3 (fmtRes r) s!"L={loads} fp={fp}" (fmtSRes sr))
        | none => (st, out3 "bad-op"))
